@@ -858,7 +858,8 @@ class NativeFormatter(Formatter):
             # Search for the placeholder entry we created in _parse_tokenized_dict(),
             # and insert back the original block_comment.
             search_pattern = rf"LINECOMMENT{key:06d}\s+LINECOMMENT{key:06d};"
-            s = re.sub(search_pattern, line_comment, s)
+            # insert the comment text literally (not as a re.sub replacement template)
+            s = re.sub(search_pattern, lambda _match, _comment=line_comment: _comment, s)
 
         return s
 
